@@ -45,6 +45,10 @@ pub struct Case {
     /// body. Whatever the server makes of it, it must make the same of it under every segmentation
     #[serde(default)]
     pub leading_crlf: bool,
+    /// n > 0: one request arrives in pieces of n bytes (a slow or byte-wise writing client: tens to hundreds of reads
+    /// for one head); (request index, piece size)
+    #[serde(default)]
+    pub trickle: Option<(u8, u8)>,
 }
 
 fn resolve_cut(bytes: &[u8], c: &Cut) -> Option<usize> {
@@ -192,8 +196,9 @@ impl Property for C06 {
             3 => Just(CutKind::Anywhere),
         ];
         let cut = (0u8..3, kind, any::<u16>()).prop_map(|(request, kind, at)| Cut { request, kind, at });
-        (vec(echo_wreq(), 1..=3), vec(cut, 0..=4), vec(prop::bool::weighted(0.3), 2), prop::bool::weighted(tier.pick(0.03, 0.15)), prop::bool::weighted(0.05), prop::option::weighted(0.05, any::<prop::sample::Index>()))
-            .prop_map(|(mut requests, cuts, coalesce, real_session, leading_crlf, bare_lf)| {
+        (vec(echo_wreq(), 1..=3), vec(cut, 0..=4), vec(prop::bool::weighted(0.3), 2), prop::bool::weighted(tier.pick(0.03, 0.15)), prop::bool::weighted(0.05), prop::option::weighted(0.05, any::<prop::sample::Index>()),
+            prop::option::weighted(0.08, (0u8..3, prop_oneof![3 => 1u8..=3, 3 => 4u8..=16, 2 => 17u8..=64])))
+            .prop_map(|(mut requests, cuts, coalesce, real_session, leading_crlf, bare_lf, trickle)| {
                 // the refused requests C05 adds to its sequences are not this check's subject
                 for w in requests.iter_mut() {
                     w.headers.retain(|(n, v)| !n.contains('\r') && !(n.eq_ignore_ascii_case("Content-Length") && v.parse::<u64>().is_err()));
@@ -216,7 +221,7 @@ impl Property for C06 {
                 for w in requests[..n - 1].iter_mut() {
                     w.headers.retain(|(h, _)| !h.eq_ignore_ascii_case("Connection"));
                 }
-                Case { requests, cuts, coalesce, real_session, leading_crlf }
+                Case { requests, cuts, coalesce, real_session, leading_crlf, trickle }
             })
             .boxed()
     }
@@ -250,6 +255,22 @@ impl Property for C06 {
                 if p < head_len(&bytes[i]) {
                     head_split = true
                 }
+            }
+        }
+        if let Some((r, step)) = case.trickle {
+            let (i, step) = (r as usize % n, step.max(1) as usize);
+            obs.label("trickled-request");
+            let mut p = step;
+            // through the real session every piece costs a millisecond of pacing, and the session has a time limit of its
+            // own: there only the head and the first bytes of the body arrive piecewise, and at most 300 pieces
+            let upto = if case.real_session { bytes[i].len().min(head_len(&bytes[i]) + 64).min(300 * step) } else { bytes[i].len() };
+            while p < upto {
+                cutset.insert(starts[i] + p);
+                p += step;
+            }
+            if bytes[i].len() > step {
+                inside = true;
+                head_split = true;
             }
         }
         let mut coalesced = false;
